@@ -31,8 +31,12 @@ class DimensionRenamer(Transformer):
         self.sample_dims_before = sample_dims
         self.feature_dims_before = feature_dims
 
+        # Number the sample dimensions first so that they receive the same new names
+        # in every element of a list, wherever they sit among the element's dimensions
+        dims = [dim for dim in sample_dims if dim in X.dims]
+        dims += [dim for dim in X.dims if dim not in dims]
         self.dim_mapping = {
-            dim: f"{self.base}{i}" for i, dim in enumerate(X.dims, start=self.start)
+            dim: f"{self.base}{i}" for i, dim in enumerate(dims, start=self.start)
         }
 
         self.sample_dims_after: Dims = tuple(
